@@ -51,7 +51,7 @@ InMath == IF ModeFrames = {} THEN FALSE
 (* written as names "args:<environment>" in DiscardMacros                                                          *)
 ArgsOf(nm) == <<97, 114, 103, 115, 58>> \o nm
 InDiscard == \E i \in 1..Len(stk) : \/ (stk[i].k \in {"call", "env", "envcall"} /\ stk[i].name \in DiscardMacros)
-                                     \/ (stk[i].k = "envcall" /\ ArgsOf(stk[i].name) \in DiscardMacros)
+                                     \/ (stk[i].k \in {"envcall", "call"} /\ ArgsOf(stk[i].name) \in DiscardMacros)
 AddChild(c) == [stk EXCEPT ![Len(stk)].body = Append(@, c)]
 Letter(c) == c \in (65..90) \cup (97..122)
 
@@ -138,7 +138,7 @@ CloseMath == /\ Top.k = "math" /\ Top.body # <<>>
 (* ---- calls ------------------------------------------------------------------------------ *)
 Call(m) == /\ CanContent
            /\ ~(InMath /\ \E i \in 1..Len(m[2]) : m[2][i].delta = "math")
-           /\ (m[1] \in DiscardMacros => ~InMath)      \* (a formula shown verbatim would show the discarded construct)
+           /\ (m[1] \in DiscardMacros \/ ArgsOf(m[1]) \in DiscardMacros => ~InMath)      \* (a formula shown verbatim would show the discarded construct)
            /\ LET iscw == Letter(m[1][1]) IN
               Write(<<92>> \o m[1], Settle(Append(stk, F("call", m[1], m[2], <<>>, ""))), IF iscw THEN "cw" ELSE "sym")
            /\ UNCHANGED mk
